@@ -2,7 +2,7 @@
 import json, os, unicodedata
 from .frontend import AnalysisBroken
 from .tables import REF, nfkd, nfc, strip_accents, digest_words
-from .ir import base_name, strip_casts, LANG_STRUCT
+from .ir import const_of, base_name, strip_casts, LANG_STRUCT
 
 NUM_WORDS = 16
 
@@ -190,16 +190,29 @@ def search_callsite(ctx, rep, cfgs=None):
         woff = [o for o, (n, s) in ft.items() if n == 'words'][0]
         nwords = [s for o, (n, s) in ft.items() if n == 'words'][0] // 8
         n = 0
+        def leaves(f, v, depth=0):
+            """values an operand can stand for: itself, or - if it is a parameter of f (possibly behind casts / constant GEPs) - the actual arguments at every direct
+            call site of f, recursively: [(function, valref, constant offset accumulated on the way)]"""
+            base, off = strip_casts(f, v)
+            if base['k'] == 'a' and depth < 4 and off is not None:
+                out = []
+                for g in P.defined.values():
+                    for ci, ct in P.calls(g):
+                        if ct == ('direct', f.name) and base['n'] < len(ci.ops):
+                            for (g2, v2, o2) in leaves(g, ci.ops[base['n']], depth + 1): out.append((g2, v2, None if o2 is None else o2 + off))
+                if out: return out
+            return [(f, base, off)]
         for f in P.defined.values():
             for i, t in P.calls(f):
                 if t != ('direct', 'bsearch'): continue
                 n += 1
-                base, off = strip_casts(f, i.ops[1])
-                nm = i.ops[2]; sz = i.ops[3]
-                ok = off == woff and nm.get('v') == nwords and sz.get('v') == 8 and nwords == 2048
-                rep.check(ok, 'bsearch at %s searches all %d entries of lang->words with element size 8' % (i.loc, nwords), i.loc,
-                          '%s bsearch' % base_name(f.name), detail={'base_offset': off, 'nmemb': nm.get('v'), 'size': sz.get('v'), 'words_offset': woff},
-                          sample={'site': i.loc, 'nmemb': nm.get('v'), 'size': sz.get('v')})
+                bases = leaves(f, i.ops[1]); nms = leaves(f, i.ops[2]); szs = leaves(f, i.ops[3])
+                offs = sorted(set(o for _, _, o in bases), key=str)
+                nmv = sorted(set(const_of(v) for _, v, _ in nms), key=str); szv = sorted(set(const_of(v) for _, v, _ in szs), key=str)
+                ok = offs == [woff] and nmv == [nwords] and szv == [8] and nwords == 2048
+                rep.check(ok, 'bsearch at %s searches all %d entries of lang->words with element size 8 (operands resolved through the parameters of %s to its call sites)' % (i.loc, nwords, base_name(f.name)), i.loc,
+                          '%s bsearch' % base_name(f.name), detail={'base_offsets': offs, 'nmemb': nmv, 'size': szv, 'words_offset': woff},
+                          sample={'site': i.loc, 'nmemb': nmv, 'size': szv})
         rep.instances(n, 1, 'bsearch call sites')
 
 
